@@ -7,7 +7,7 @@ Extraction "extracted/model.ml"
   Store.bnot Store.band Store.bor Store.bimp Store.biff Store.bxor
   Store.cubes Store.count_naive Store.count_memo Store.models Store.paths Store.max_depth
   Store.var_dependencies Store.passive_var_impact Store.active_var_impact
-  Store.fix_import Store.table_of Store.from_nodes Store.import_raw Store.recv
+  Store.fix_import Store.fix_import_cur Store.table_of Store.from_nodes Store.import_raw Store.recv
   Store.set_outq Store.cfg_default Store.get_node Store.get_vd Store.get_cnt
   Iter.it2_collect Iter.it3_collect
   Native.term Native.from_parser Native.grounded Native.complete Native.stable
